@@ -98,10 +98,32 @@ func doMatchMatches(expression *grammar.MatchExpression, value reflect.Value) (b
 		if err != nil {
 			return false, fmt.Errorf("Failed to compile regular expression %q: %v", expression.Value.Raw, err)
 		}
-		expression.Value.Converted = re
 	}
 
 	return re.Match(value.Convert(byteSliceTyp).Interface().([]byte)), nil
+}
+
+// compileRegexps compiles the pattern of every `matches` / `not matches`
+// expression of the tree and caches it in the tree. It is called once, when
+// the evaluator is created, so that evaluation never writes to the tree and an
+// Evaluator can be shared between goroutines. An invalid pattern is left alone
+// and reported by doMatchMatches when it is evaluated.
+func compileRegexps(ast grammar.Expression) {
+	switch node := ast.(type) {
+	case *grammar.UnaryExpression:
+		compileRegexps(node.Operand)
+	case *grammar.BinaryExpression:
+		compileRegexps(node.Left)
+		compileRegexps(node.Right)
+	case *grammar.CollectionExpression:
+		compileRegexps(node.Inner)
+	case *grammar.MatchExpression:
+		if (node.Operator == grammar.MatchMatches || node.Operator == grammar.MatchNotMatches) && node.Value != nil {
+			if re, err := regexp.Compile(node.Value.Raw); err == nil {
+				node.Value.Converted = re
+			}
+		}
+	}
 }
 
 func doMatchEqual(expression *grammar.MatchExpression, value reflect.Value) (bool, error) {
